@@ -120,7 +120,6 @@ func vpH_c19_marshal_frame() {
 
 func init() {
 	vpRegister("c05_step_str", vpH_c05_step_str)
-	vpRegister("c05_equal_nested", vpH_c05_equal_nested)
 }
 
 // the string-keyed, any-valued instantiation used by the parser: one mutator
@@ -206,44 +205,3 @@ func vpH_c05_step_str() {
 	vpAssert(len(m.index) == live, "string keys: index holds nothing else")
 }
 
-// Equal on any-valued maps with nested ordered maps (go-cmp with the two registered comparers)
-func vpH_c05_equal_nested() {
-	mk := func() (*Map[string, any], []vpPairS, []vpPairS) {
-		outer := NewMap[string, any](0)
-		inner := NewMap[string, any](0)
-		var ol, il []vpPairS
-		for i := 0; i < vpInt(0, 2); i++ {
-			k, v := vpStrUpTo(1, "a-b"), vpStrUpTo(1, "x-y")
-			if inner.Contains(k) {
-				continue
-			}
-			inner.Set(k, v)
-			il = append(il, vpPairS{k, v})
-		}
-		for i := 0; i < vpInt(0, 1); i++ {
-			k, v := vpStrUpTo(1, "a-b"), vpStrUpTo(1, "x-y")
-			outer.Set(k, v)
-			ol = append(ol, vpPairS{k, v})
-		}
-		if !outer.Contains("n") {
-			outer.Set("n", inner)
-		}
-		return outer, ol, il
-	}
-	eq := func(a, b []vpPairS) bool {
-		if len(a) != len(b) {
-			return false
-		}
-		for i := range a {
-			if a[i] != b[i] {
-				return false
-			}
-		}
-		return true
-	}
-	a, ao, ai := mk()
-	b, bo, bi := mk()
-	want := eq(ao, bo) && eq(ai, bi)
-	vpAssert(Equal(a, b) == want, "Equal on nested any-valued maps is deep equality of keys, values and order")
-	vpAssert(Equal(b, a) == want, "Equal on nested maps is symmetric")
-}
